@@ -282,6 +282,9 @@ type scenario struct {
 	Webhook     bool        `json:"webhook"`
 	SetField    bool        `json:"set_field"`
 	AddURN      bool        `json:"add_urn"`
+	// add_contact_urn whose candidate is the URN side A holds in slot AddURNProbe-1 (0 = a fresh URN): the action's
+	// effect then depends on a comparison with the hidden path
+	AddURNProbe int `json:"add_urn_probe,omitempty"`
 	SetChannel  bool        `json:"set_channel"`
 	Tpl         [7]string   `json:"templates"`
 	Resumes     []resumeDef `json:"resumes"`
@@ -409,6 +412,12 @@ func genScenario(r *hx.Rand, id int) *scenario {
 	sc.Webhook = r.Chance(1, 2)
 	sc.SetField = r.Chance(1, 2)
 	sc.AddURN = r.Chance(1, 3)
+	if pr := r.Fork("probe"); sc.AddURN && len(sc.Contact.Slots) > 0 && pr.Chance(1, 4) {
+		k := pr.Intn(len(sc.Contact.Slots))
+		if _, p, _, _ := urns.URN(sc.Contact.Slots[k].A).ToParts(); simplePath(p) {
+			sc.AddURNProbe = k + 1
+		}
+	}
 	sc.SetChannel = r.Chance(1, 4) && len(sc.chans()) > 0
 	for i := range sc.Tpl {
 		sc.Tpl[i] = hx.Pick(r, flowTemplates)
@@ -459,6 +468,32 @@ func (sc *scenario) makePreFlipPlain(r *hx.Rand) {
 		}
 		sc.Resumes[i].FlipPolicy = false
 	}
+}
+
+func simplePath(p string) bool {
+	for _, c := range p {
+		if !(c == '+' || c == '@' || c == '.' || c == '-' || c == '_' || (c >= '0' && c <= '9') || (c >= 'a' && c <= 'z') || (c >= 'A' && c <= 'Z')) {
+			return false
+		}
+	}
+	return p != ""
+}
+
+// probeHeldByOneSide: the add_contact_urn candidate has the identity of a URN exactly one of the twins holds
+func (sc *scenario) probeHeldByOneSide() bool {
+	if !sc.AddURN || sc.AddURNProbe == 0 {
+		return false
+	}
+	cand := urns.URN(sc.Contact.Slots[sc.AddURNProbe-1].A).Identity()
+	held := [2]bool{}
+	for side := 0; side < 2; side++ {
+		for i := range sc.Contact.Slots {
+			if urns.URN(sc.Contact.Slots[i].side(side)).Identity() == cand {
+				held[side] = true
+			}
+		}
+	}
+	return held[0] != held[1]
 }
 
 // corpus: hand-made scenarios that run first.  The "divergent" ones make the twin tel URNs choose different
@@ -519,6 +554,14 @@ func corpusScenarios() []*scenario {
 	d3 := base("divergent-tel-channel-country", 6, "Ann", fixed("tel", "tel:+250788123123", "tel:+250738123123"))
 	d3.Country = ""
 	out = append(out, d3)
+	// MEMBERSHIP PROBE: add_contact_urn with the number side A holds (one tel channel: no channel divergence)
+	pb := base("add-urn-probe-held-by-one-twin", 0, "", fixed("tel", "tel:+12065551212", "tel:+12065553434"))
+	pb.AddURN, pb.AddURNProbe = true, 1
+	out = append(out, pb)
+	// ... and held by both (identical slot): nothing may differ
+	pb2 := base("add-urn-probe-held-by-both", 0, "Ann", fixed("tel", "tel:+12065551212", "tel:+12065551212"), fixed("facebook", "facebook:1122334455667788", "facebook:9988776655443322"))
+	pb2.AddURN, pb2.AddURNProbe = true, 1
+	out = append(out, pb2)
 	// POLICY SWITCH mid-flow: the first resume carries the same environment with the other redaction policy
 	fl := base("policy-switch-on-first-resume", 0, "", fixed("tel", "tel:+12065551212", "tel:+12065559876"), fixed("twitterid", "twitterid:54784326227#nyaruka", "twitterid:11223344556#other"))
 	fl.Resumes[0].FlipPolicy = true
@@ -694,7 +737,11 @@ func (sc *scenario) assetsJSON() []byte {
 		n1acts = append(n1acts, map[string]any{"uuid": "a0000000-0000-4000-8000-000000000004", "type": "set_contact_field", "field": map[string]any{"key": "note", "name": "Note"}, "value": sc.Tpl[2]})
 	}
 	if sc.AddURN {
-		n1acts = append(n1acts, map[string]any{"uuid": "a0000000-0000-4000-8000-000000000005", "type": "add_contact_urn", "scheme": "ext", "path": "fresh-0001"})
+		scheme, path := "ext", "fresh-0001"
+		if sc.AddURNProbe > 0 {
+			scheme, path, _, _ = urns.URN(sc.Contact.Slots[sc.AddURNProbe-1].A).ToParts()
+		}
+		n1acts = append(n1acts, map[string]any{"uuid": "a0000000-0000-4000-8000-000000000005", "type": "add_contact_urn", "scheme": scheme, "path": path})
 	}
 	if sc.SetChannel {
 		ch := sc.chans()[len(sc.chans())-1]
